@@ -4,7 +4,13 @@ Lean: Edn.Properties.C02 (termination for every input, progress, no descent at t
 limit, gcd termination).  Correspondence: adversarial nesting families through the real
 library and the model.  Oracle / monitoring: the real library runs with a 1 MiB stack and a
 CPU limit on nesting families of depth 1..10^6, long discard runs, and generated/corrupted
-documents; wall time must grow at most quadratically with the input length."""
+documents; wall time must grow at most quadratically with the input length.  Nesting is also driven
+through every single position in which a form contains a form (annotation and target of `^`, tag
+operand, discarded form, map key / value, namespaced-map prefix, ...) and every ordered pair of them,
+in all four configurations: no member may kill the process or be accepted beyond the nesting limit.
+Duplicate detection is run on two equal (and equal-down-to-the-leaf) operands nested up to the limit,
+for every kind of level and every place where the reader compares values (set members, map keys, above
+the 16- and 1000-element cut-overs, merged annotation maps, namespaced maps, discarded forms)."""
 import json
 import resource
 import time
@@ -46,6 +52,233 @@ def families(cfg, depths):
         for n in depths:
             out.append((name, n, f(n)))
     return out
+
+
+# Every position of the grammar through which a form contains another form: (text before the inner form, text after it,
+# needs the Clojure extension, nesting levels one unit adds when the reader accepts it: 0 for the spellings that are no
+# nesting at all - `#:` directly before another marker, `#:n` and its brace apart - and are there because a reader could
+# recurse on them).  A chain of n such units around a leaf nests n deep through that position alone; an
+# alternation of two units nests through both.  The leaf `s` (a symbol) is acceptable in every position (as annotation, as
+# annotated form, as key, as operand of a tag), so that without a nesting limit every chain would be a well-formed document.
+UNITS = {
+    "list": (b"(", b")", False, 1),
+    "vector": (b"[", b"]", False, 1),
+    "set": (b"#{", b"}", False, 1),
+    "map-value": (b"{:a ", b"}", False, 1),
+    "map-key": (b"{", b" 1}", False, 1),
+    "tag-operand": (b"#a ", b"", False, 1),
+    "discarded-form": (b"#_ ", b" s", False, 1),
+    "after-discard": (b"[#_ 0 ", b"]", False, 1),
+    "meta-target": (b"^a ", b"", True, 1),
+    "meta-annotation": (b"^", b" s", True, 1),
+    "meta-annotation-map": (b"^{:k ", b"} s", True, 1),
+    "meta-annotation-vector": (b"^[", b"] s", True, 1),
+    "meta-map-target": (b"^{:k 1} ", b"", True, 1),
+    "nsmap-value": (b"#:n{:k ", b"}", True, 1),
+    "nsmap-key": (b"#:n{", b" 1}", True, 1),
+    "nsmap-prefix": (b"#:", b"", True, 0),
+    "nsmap-prefix-name": (b"#:n ", b"", True, 0),
+}
+
+
+def chain_families(cfg, tier):
+    """(name, number of units, document, nesting levels of the document when it is complete - 0 for a chain cut off after its
+    last opener, and for alternations with a spelling that is no nesting, whose text may fall apart into something flat): chains of
+    one unit, and alternations of every ordered pair of units."""
+    clj = cfg in ("clj", "both")
+    units = [(k, p, s, lv) for k, (p, s, c, lv) in UNITS.items() if clj or not c]
+    deep = [1000, 20000, 300000] if tier == "quick" else [1000, 5000, 20000, 100000, 300000]
+    out = []
+    for k, p, s, lv in units:
+        for n in [1, 49, 50, 51, 98, 99, 100, 101, 150] + deep:
+            out.append(("chain/" + k, n, p * n + b"s" + s * n, n * lv))
+            if 99 <= n <= 20000 or (n > 20000 and tier == "thorough"):
+                out.append(("chain-open/" + k, n, p * n, 0))
+    for k1, p1, s1, lv1 in units:
+        for k2, p2, s2, lv2 in units:
+            if k1 == k2:
+                continue
+            for h in ([40, 75, 5000] if tier == "quick" else [25, 40, 50, 75, 150, 500, 10000]):
+                out.append(("chain/%s+%s" % (k1, k2), 2 * h, (p1 + p2) * h + b"s" + (s2 + s1) * h, h * (lv1 + lv2) if lv1 and lv2 else 0))
+    return out
+
+
+# Equality / hashing / duplicate detection while reading: two EQUAL (or equal down to the leaf) operands nested k deep.  The
+# cost of comparing them must not grow faster than a low-order polynomial of their size, whatever the kinds of the levels.
+def nested_shapes(cfg):
+    clj = cfg in ("clj", "both")
+    sh = {
+        "sets": lambda k, leaf: b"#{" * k + leaf + b"}" * k,
+        "map-values": lambda k, leaf: b"{:a " * k + leaf + b"}" * k,
+        "map-keys": lambda k, leaf: b"{" * k + leaf + b" 1}" * k,
+        "map-keys-and-values": lambda k, leaf: (b"{" * (k // 2) + b"{:a " * (k - k // 2) + leaf + b"}" * (k - k // 2) + b" 1}" * (k // 2)),
+        "vectors": lambda k, leaf: b"[" * k + leaf + b"]" * k,
+        "lists": lambda k, leaf: b"(" * k + leaf + b")" * k,
+        "tags": lambda k, leaf: b"#t " * k + leaf,
+        "sets-of-two": lambda k, leaf: b"#{0 " * k + leaf + b"}" * k,
+        "maps-of-two": lambda k, leaf: b"{:b 0 :a " * k + leaf + b"}" * k,
+        "sets-in-maps": lambda k, leaf: b"".join((b"#{", b"{:a ", b"{")[i % 3] for i in range(k)) + leaf + b"".join((b"}", b"}", b" 1}")[i % 3] for i in reversed(range(k))),
+        "sets-in-vectors": lambda k, leaf: b"".join((b"#{", b"[", b"#t ", b"{:a ")[i % 4] for i in range(k)) + leaf + b"".join((b"}", b"]", b"", b"}")[i % 4] for i in reversed(range(k))),
+    }
+    if clj:
+        sh["nsmaps"] = lambda k, leaf: b"#:n{:a " * k + leaf + b"}" * k
+        sh["annotated-sets"] = lambda k, leaf: b"^:m #{" * (k // 2) + leaf + b"}" * (k // 2)
+    return sh
+
+
+def nested_contexts(cfg):
+    """name -> (function of the two operands, levels the context adds around them)"""
+    clj = cfg in ("clj", "both")
+    pad16 = b" ".join(b"%d" % i for i in range(16))
+    pad16m = b" ".join(b"%d %d" % (i, i) for i in range(16))
+    pad1200 = b" ".join(b"%d" % i for i in range(1200))
+    cx = {
+        "set-members": (lambda x, y: b"#{" + x + b" " + y + b"}", 1),
+        "map-keys": (lambda x, y: b"{" + x + b" 1 " + y + b" 2}", 1),
+        "three-members": (lambda x, y: b"#{" + x + b" 0 " + y + b" 1 " + x + b"}", 1),
+        "in-vectors": (lambda x, y: b"#{[" + x + b"] [" + y + b"]}", 2),
+        "under-tags": (lambda x, y: b"{#t " + x + b" 1 #t " + y + b" 2}", 2),
+        "as-map-values": (lambda x, y: b"#{{:k " + x + b"} {:k " + y + b"}}", 2),
+        "members-of-17": (lambda x, y: b"#{" + pad16[:20] + b" " + x + b" " + pad16[20:] + b" " + y + b"}", 1),
+        "keys-of-17": (lambda x, y: b"{" + x + b" 1 " + pad16m + b" " + y + b" 2}", 1),
+        "members-of-1200": (lambda x, y: b"#{" + x + b" " + pad1200 + b" " + y + b"}", 1),
+        "inner-set": (lambda x, y: b"[1 #{" + x + b" " + y + b"} 2]", 2),
+        "discarded-set": (lambda x, y: b"#_ #{" + x + b" " + y + b"} 1", 2),
+        "discarded-keys": (lambda x, y: b"[#_ {" + x + b" 1 " + y + b" 2}]", 3),
+    }
+    if clj:
+        cx["merged-annotation-keys"] = (lambda x, y: b"^{" + x + b" 1} ^{" + y + b" 2} s", 3)
+        cx["nsmap-keys"] = (lambda x, y: b"#:n{" + x + b" 1 " + y + b" 2}", 1)
+        cx["annotation-map-keys"] = (lambda x, y: b"^{" + x + b" 1 " + y + b" 2} s", 2)
+    return cx
+
+
+def nested_equal_docs(cfg, tier, stage):
+    """stage 0: every shape at the greatest depth the nesting limit admits, as the two members of a set; stage 1: the sweep
+    over contexts and depths.  (name, depth, document)"""
+    shapes, ctxs = nested_shapes(cfg), nested_contexts(cfg)
+    out = []
+    if stage == 0:
+        f, extra = ctxs["set-members"]
+        for sn, g in shapes.items():
+            out.append(("nested-equal/%s/set-members" % sn, 97, f(g(97, b"1"), g(97, b"1"))))
+        return out
+    depths = (2, 17, 34, 48, 97) if tier == "quick" else tuple(range(1, 98, 3)) + (97,)
+    for sn, g in shapes.items():
+        for cn, (f, extra) in ctxs.items():
+            for k in depths:
+                k = min(k, 99 - extra)
+                out.append(("nested-equal/%s/%s" % (sn, cn), k, f(g(k, b"1"), g(k, b"1"))))
+                out.append(("nested-differing-leaf/%s/%s" % (sn, cn), k, f(g(k, b"1"), g(k, b"2"))))
+    return out
+
+
+def _replay_of(cfg, mode, name, n, d, extra=None):
+    # short documents are stored; the long members of a family are regenerated from (generator, family, depth) by replay()
+    r = {"kind": "family", "config": cfg, "mode": mode, "family": name, "depth": n, "input_hex": C.hexs(d) if len(d) <= 20000 else None, "input_length": len(d)}
+    r.update(extra or {})
+    return r
+
+
+def chain_part(rep, cfg, tier, modes=None, light=False):
+    """Nesting through every position and every ordered pair of positions: no member may kill the process under a 1 MiB stack
+    or outlast the CPU alarm, and no complete chain of 150 or more nested units may be accepted (the reader refuses to descend
+    at the nesting limit: Edn.Properties.C02 no_descent_at_limit; that is what bounds its stack)."""
+    found = False
+    fams = chain_families(cfg, tier)
+    if light and tier == "quick":
+        # the configurations with one extension only: no long alternations, no model run
+        fams = [f for f in fams if "+" not in f[0] or f[1] <= 1000]
+    all_lines = K.read_lines([d for _, _, d, _ in fams])
+    all_fams = fams
+    impl0 = None
+    for mode in (modes or (("o2", "san", "o0") if tier == "thorough" else ("o2", "san"))):
+        # quick tier, sanitised build: the members above 20000 units are left to the optimised build (the time goes into decoding them)
+        keep = [i for i in range(len(all_fams)) if not (tier == "quick" and mode == "san" and all_fams[i][1] > 20000)]
+        fams, lines = [all_fams[i] for i in keep], [all_lines[i] for i in keep]
+        order = sorted(range(len(fams)), key=lambda i: (fams[i][1], "+" in fams[i][0], len(fams[i][2])))
+        impl, crashes = K.run_impl(cfg, lines, mode=mode, stack_kb=(1024 if mode != "san" else 8192), cpu_s=120, nchunks=16)
+        rep.count("position-chains/%s-%s" % (cfg, mode), len(lines))
+        for idx, rc, err in sorted(crashes, key=lambda t: fams[t[0]][1]):
+            # A process that dies is charged to the first line without a complete answer.  The harness prints the value it got
+            # recursively, so it can itself die on a value nested thousands deep (after the reader returned): the document is
+            # read again in a process of its own to tell "the reader died" from "the reader accepted it" and from "another
+            # document of the same process was the cause" (that one shows up below as accepted beyond the limit).
+            name, n, d, levels = fams[idx]
+            r1 = C.run_lines(C.harness("unity", cfg, mode), [lines[idx]], stack_kb=(1024 if mode != "san" else 8192), cpu_s=120)
+            if r1.returncode == 0 and r1.crashed_at is None:
+                impl[idx] = r1.outputs[0]
+                rep.count("position-chains/crash-charged-to-a-neighbour")
+                continue
+            if r1.outputs and r1.outputs[0].startswith("ok "):
+                impl[idx] = r1.outputs[0]
+                continue
+            found = True
+            rep.finding("stack-or-hang/%s" % name, "%d forms nested through the position(s) %s: process died (rc %s) under a %s stack / CPU limit" % (
+                n, name.split("/", 1)[1], r1.returncode, "1 MiB" if mode != "san" else "8 MiB"),
+                _replay_of(cfg, mode, name, n, d, {"generator": "chain", "stderr": (r1.stderr or err)[:1500]}))
+        for i in order:
+            name, n, d, levels = fams[i]
+            a = impl[i]
+            if a is None:
+                continue
+            if a.startswith("timeout"):
+                found = True
+                rep.finding("hang/%s" % name, "%d forms nested through the position(s) %s did not return within 10 s" % (n, name.split("/", 1)[1]),
+                            _replay_of(cfg, mode, name, n, d, {"generator": "chain"}))
+            elif levels >= 150 and a.startswith("ok "):
+                found = True
+                rep.finding("limit/not-enforced", "a document of %d forms nested through the position(s) %s (%d bytes) was accepted: the nesting limit does not "
+                            "bound this recursion, so the reader's stack grows with the input" % (levels, name.split("/", 1)[1], len(d)),
+                            _replay_of(cfg, mode, name, n, d, {"generator": "chain", "observed": a[:200]}))
+        if impl0 is None:
+            impl0 = (fams, lines, impl)
+    # the model answers the moderate depths as well
+    fams, lines, impl = impl0
+    if not (light and tier == "quick"):
+        sel = [i for i in range(len(fams)) if fams[i][1] <= 1000]
+        mo, _ = K.run_model(cfg, [lines[i] for i in sel])
+        rep.count("position-chains/%s-model" % cfg, len(sel))
+        for j, i in enumerate(sel):
+            if impl[i] is not None and not impl[i].startswith("timeout") and impl[i] != mo[j]:
+                rep.broken_obligation("correspondence/position-chain", "model %r vs code %r on %s depth %d" % ((mo[j] or "")[:150], impl[i][:150], fams[i][0], fams[i][1]), False)
+    rep.note_cases(len(all_lines), set("%s-%d" % (nm, n) for nm, n, _, _ in all_fams), sample={"family": all_fams[7][0], "depth": all_fams[7][1]})
+    return found
+
+
+def nested_equal_part(rep, cfg, tier, modes=None):
+    """Duplicate detection on equal operands nested up to the limit.  Stage 0 is small: when it already shows a reader that
+    does not return, the sweep (which would spend 10 CPU seconds on every further member) is skipped."""
+    found = False
+    for stage in (0, 1):
+        docs = nested_equal_docs(cfg, tier, stage)
+        lines = K.read_lines([d for _, _, d in docs])
+        for mode in (("o2",) if stage == 0 else (modes or ("o2", "san"))):
+            impl, crashes = K.run_impl(cfg, lines, mode=mode, stack_kb=(1024 if mode != "san" else 8192), cpu_s=600, nchunks=16)
+            rep.count("nested-equal-operands/%s-%s-stage%d" % (cfg, mode, stage), len(lines))
+            for idx, rc, err in crashes:
+                found = True
+                name, k, d = docs[idx]
+                rep.finding("stack-or-hang/%s" % name, "%s at depth %d: process died (rc %s) under a 1 MiB stack / CPU limit" % (name, k, rc),
+                            _replay_of(cfg, mode, name, k, d, {"stderr": err[:1500]}))
+            for (name, k, d), a in sorted(zip(docs, impl), key=lambda t: t[0][1]):
+                if a is None:
+                    continue
+                if a.startswith("timeout"):
+                    found = True
+                    rep.finding("hang/%s" % name.split("/")[0], "a %d-byte document did not return within 10 CPU seconds: two operands nested %d deep (%s) "
+                                "that are equal%s, where the reader looks for duplicates" % (len(d), k, name, "" if "equal/" in name else " down to the leaf"),
+                                _replay_of(cfg, mode, name, k, d))
+                else:
+                    # what the answer is (duplicate or not) is the business of C07 / C08; counted here so that the evidence shows
+                    # that the comparison really ran to the leaves
+                    rep.count("nested-equal-operands/answers/" + ("duplicate" if a.startswith("err DUPLICATE") else "accepted" if a.startswith("ok ") else "other"))
+            if found:
+                break
+        rep.note_cases(len(lines), set("%s-%d" % (nm, k) for nm, k, _ in docs))
+        if found:
+            break
+    return found
 
 
 def run(tier):
@@ -128,6 +361,14 @@ def run(tier):
             i = sel[j]
             rep.broken_obligation("correspondence/family", "model %r vs code %r on family %s depth %d" % ((model[j] or "")[:150], (impl[j] or "")[:150], fams[i][0], fams[i][1]), False)
         rep.note_cases(len(lines), set("%s-%d" % (nm, n) for nm, n, _ in fams), sample={"family": fams[20][0], "depth": fams[20][1]})
+
+        # every position through which a form contains a form (annotation and target of `^`, operand of a tag, discarded form,
+        # key and value of a map, namespaced-map prefix, ...), alone and in ordered pairs
+        if chain_part(rep, cfg, tier):
+            found = True
+        # duplicate detection on deeply nested equal operands
+        if nested_equal_part(rep, cfg, tier):
+            found = True
 
         # the same bound with a reader registry and each default reader mode (8 = registry, +2 unwrap, +4 error): tags with
         # and without a handler around and inside collections
@@ -264,13 +505,26 @@ def run(tier):
                     rep.broken_obligation("correspondence/ratio", "model %r vs code %r on %r" % (b, a, d), False)
                     break
             rep.note_cases(len(rdocs), set(rdocs))
+    # the two configurations with one extension only: the position chains and the nested equal operands, optimised build
+    for cfg in ("clj", "exp"):
+        if chain_part(rep, cfg, tier, modes=("o2",), light=True):
+            found = True
+        if nested_equal_part(rep, cfg, tier, modes=("o2",)):
+            found = True
     U.finish_proof(rep, lean, found)
 
 
 def replay(path):
     r = json.load(open(path))
     print(json.dumps(r, indent=1)[:2000])
+    if not r.get("input_hex") and r.get("generator") == "chain":
+        # long members of the position-chain families are regenerated
+        for tier in ("quick", "thorough"):
+            for name, n, d, _ in chain_families(r["config"], tier):
+                if name == r.get("family") and n == r.get("depth"):
+                    r["input_hex"] = C.hexs(d)
     if r.get("input_hex"):
-        out = C.run_lines(C.harness("unity", r["config"], r.get("mode", "o2")), K.read_lines([bytes.fromhex(r["input_hex"])]), stack_kb=1024, cpu_s=60)
+        out = C.run_lines(C.harness("unity", r["config"], r.get("mode", "o2")), K.read_lines([bytes.fromhex(r["input_hex"])], r.get("opt", 0)),
+                          stack_kb=(1024 if r.get("mode", "o2") != "san" else 8192), cpu_s=60)
         print("now:", [o[:200] for o in out.outputs], out.returncode)
     return 0
